@@ -12,7 +12,7 @@ fn leaf(name: &'static str) -> Expression {
 
 /// Operand shapes: 0 leaf, 1 `x INNER y`, 2 `-x`/`not x`/`#x`, 3 `if c then x else y`,
 /// 4 `x INNER (if c then y else z)` (an operand *ending* in an open if-expression),
-/// 5 `not (if ...)`, 6 `x INNER -y`, 7 `(x)`.
+/// 5 `not (if ...)`, 6 `x INNER -y`, 7 `(x)`, 8 `-(x INNER if c then y else z)`.
 fn operand(group: u8, shape: u8, inner: u8, unary: u8) -> Expression {
     // `group` is a constant of each harness: only its shapes are ever constructed
     match group {
@@ -30,6 +30,15 @@ fn operand(group: u8, shape: u8, inner: u8, unary: u8) -> Expression {
             )
             .into(),
         },
+        3 => UnaryExpression::new(
+            unary_operator(unary),
+            BinaryExpression::new(
+                binary_operator(inner),
+                leaf("x"),
+                IfExpression::new(leaf("c"), leaf("y"), leaf("z")),
+            ),
+        )
+        .into(),
         _ => match shape {
             3 => IfExpression::new(leaf("c"), leaf("x"), leaf("y")).into(),
             4 => BinaryExpression::new(
@@ -51,6 +60,7 @@ fn assume_group<S: Source>(s: &mut S, group: u8, shape: u8) {
     match group {
         0 => s.assume(shape == 0 || shape == 1 || shape == 7),
         1 => s.assume(shape == 2 || shape == 6),
+        3 => s.assume(shape == 8),
         _ => s.assume(shape == 3 || shape == 4 || shape == 5),
     }
 }
@@ -66,6 +76,9 @@ fn left_operand_survives(shape: u8, inner: u8, outer: u8) -> bool {
         2 => !(priority(outer).0 > UNARY_PRIORITY),
         // an if-expression's else branch extends as far as possible
         3 | 4 | 5 => false,
+        // `-(x INNER if ...)`: the unary writer closes a binary operand in parentheses unless the
+        // operator binds tighter than unary operators (`^`): `-x ^ if c then y else z OUTER w`
+        8 => !(priority(inner).0 > UNARY_PRIORITY),
         // `x INNER -y OUTER z`: first the unary operand, then the binary rule
         _ => !(priority(outer).0 > UNARY_PRIORITY) && parses_as_left_nested(inner, outer),
     }
@@ -86,7 +99,7 @@ fn right_operand_survives(shape: u8, inner: u8, outer: u8) -> bool {
 /// H-C02-prec-left
 fn prec_left<S: Source>(s: &mut S, group: u8) {
     let (outer, inner, unary, shape) = (s.any_u8(), s.any_u8(), s.any_u8(), s.any_u8());
-    s.assume(outer < 16 && inner < 16 && unary < 3 && shape < 8);
+    s.assume(outer < 16 && inner < 16 && unary < 3 && shape < 9);
     assume_group(s, group, shape);
     let left = operand(group, shape, inner, unary);
     let emitted = binary_operator(outer).left_needs_parentheses(&left);
@@ -95,11 +108,11 @@ fn prec_left<S: Source>(s: &mut S, group: u8) {
     witness!(group != 0 || (emitted && shape == 1), "a binary left operand gets parentheses");
     witness!(group != 0 || (!emitted && shape == 1), "a binary left operand goes without parentheses");
     witness!(group != 1 || (emitted && shape == 2), "a unary left operand of `^` gets parentheses");
-    witness!(group != 2 || emitted, "an if-expression operand gets parentheses");
+    witness!(group < 2 || emitted, "an if-expression operand gets parentheses");
     match shape {
         1 => claim!(s, emitted || !required, "left binary operand: parentheses whenever the grammar would regroup `x INNER y OUTER z`"),
         2 | 6 => claim!(s, emitted || !required, "left operand ending in a unary expression: parentheses whenever OUTER binds tighter than unary operators"),
-        3 | 4 | 5 => claim!(s, emitted || !required, "left operand ending in an if-expression is always parenthesised"),
+        3 | 4 | 5 | 8 => claim!(s, emitted || !required, "left operand ending in an open if-expression is always parenthesised"),
         _ => claim!(s, emitted || !required, "left leaf operand needs no parentheses"),
     }
     core::mem::forget(left);
@@ -114,11 +127,14 @@ pub fn prec_left_unary<S: Source>(s: &mut S) {
 pub fn prec_left_if<S: Source>(s: &mut S) {
     prec_left(s, 2)
 }
+pub fn prec_left_unary_binary_if<S: Source>(s: &mut S) {
+    prec_left(s, 3)
+}
 
 /// H-C02-prec-right
 fn prec_right<S: Source>(s: &mut S, group: u8) {
     let (outer, inner, unary, shape) = (s.any_u8(), s.any_u8(), s.any_u8(), s.any_u8());
-    s.assume(outer < 16 && inner < 16 && unary < 3 && shape < 8);
+    s.assume(outer < 16 && inner < 16 && unary < 3 && shape < 9);
     assume_group(s, group, shape);
     let right = operand(group, shape, inner, unary);
     let emitted = binary_operator(outer).right_needs_parentheses(&right);
@@ -169,6 +185,7 @@ pub fn operator_tables<S: Source>(s: &mut S) {
 crate::proof!(#[kani::unwind(5)] c02_prec_left_binary => prec_left_binary);
 crate::proof!(#[kani::unwind(5)] c02_prec_left_unary => prec_left_unary);
 crate::proof!(#[kani::unwind(5)] c02_prec_left_if => prec_left_if);
+crate::proof!(#[kani::unwind(5)] c02_prec_left_unary_binary_if => prec_left_unary_binary_if);
 crate::proof!(#[kani::unwind(5)] c02_prec_right_binary => prec_right_binary);
 crate::proof!(#[kani::unwind(5)] c02_prec_right_unary => prec_right_unary);
 crate::proof!(#[kani::unwind(5)] c02_prec_right_if => prec_right_if);
